@@ -131,6 +131,18 @@ func factsHashring() {
 	}
 	emitStr("simpleGetNIndex", "pkg/receive/hashring.go simpleHashring.GetN: the index expression", sidx)
 
+	// ---- C20: what a section hash is computed from
+	hin := "unknown"
+	if b := body(fn(f, "", "newKetamaHashring")); b != nil {
+		for _, c := range calls(b, "Write") {
+			if len(c.Args) == 1 && strings.Contains(text(c.Args[0]), "endpoint") {
+				hin = text(c.Args[0])
+				break
+			}
+		}
+	}
+	emitStr("ketamaSectionHashInput", "pkg/receive/hashring.go newKetamaHashring: the bytes hashed for a section", hin)
+
 	emitStr("ketamaTooFew", "pkg/receive/hashring.go newKetamaHashring: the endpoint-count test",
 		firstIfCond(body(fn(f, "", "newKetamaHashring")), "replicationFactor"))
 }
